@@ -122,7 +122,7 @@ def ensure_fixture(prog):
 
 def fixture_frames(prog):
     ensure_fixture(prog)
-    return {n: f for n, f in all_frames(prog).items() if n.startswith(FIX)}
+    return {n: f for n, f in all_frames(prog, include_extra=True).items() if n.startswith(FIX)}
 
 
 def scan_stores(prog, frames):
